@@ -14,7 +14,7 @@ Selected == sS # <<>> /\ sT # <<>> /\ (Modulus = 1 \/ (SB!Checksum(sS) * 31 + SB
 
 MinOf(a, b) == IF a < b THEN a ELSE b
 NoLinks == <<>>
-OpticTable(sh, cs, lens) ==
+OpticTable(sh, cs, lens, wrapped) ==
   LET chains == SetToSeq({ch \in ChainsFrom(sh, "T0", 3) : Len(ch) >= 2})
       O(kind, nest, conv, links, names, types, foci, nv) ==
          [kind |-> kind, nest |-> nest, conv |-> conv, links |-> links, names |-> names, types |-> types, foci |-> foci, nv |-> nv]
@@ -22,7 +22,7 @@ OpticTable(sh, cs, lens) ==
       J(ch, nest) == O("join", nest, "", [i \in 1..Len(ch) |-> [cont |-> ch[i].cont, key |-> ch[i].key, ty |-> ch[i].ty]],
                        <<>>, <<ch[Len(ch)].ty>>, <<AbsFocus(Tree(ch, nest))>>, 0)
       joins == [i \in 1..(2 * Len(chains)) |-> IF i <= Len(chains) THEN J(chains[i], "left") ELSE J(chains[i - Len(chains)], "right")]
-      nw == MinOf(Len(lens), 3)
+      nw == MinOf(Len(lens), wrapped)
       W(i, kind, conv) == O(kind, "", conv, NoLinks, <<lens[i].key>>, <<lens[i].ty>>, <<<<lens[i].cell, lens[i].cell>>>>, lens[i].nv)
       wraps == [n \in 1..(nw * 6) |-> LET i == ((n - 1) \div 6) + 1  k == (n - 1) % 6 IN
                   W(i, CASE k \in {0, 1} -> "bimap" [] k \in {2, 3} -> "getter" [] OTHER -> "setter", IF k % 2 = 0 THEN "rot" ELSE "cast")]
@@ -62,7 +62,7 @@ Emit ==
   Selected =>
   LET csS == Cells(sS)  csT == Cells(sT)  ls == LeafLenses(sS)  lt == LeafLenses(sT)
       isos == IsoSeq(ls, lt)  im == IF Len(ls) > 0 THEN IsoSeqM(ls) ELSE <<>>
-      ot == OpticTable(sS, csS, ls)
+      ot == OpticTable(sS, csS, ls, IF IsBoundary THEN 9 ELSE 3)
       lists == SetToSeq(Lists(isos))  listsM == SetToSeq(Lists(im))
       sv == Pattern(csS, 0)  tv == Pattern(csT, 1)
   IN PrintT(ToJson(
